@@ -46,7 +46,14 @@ pub fn split(st: &str, v: &DV) -> Option<(bool, bool)> {
 
 fn run(ctx: &mut Ctx, _idx: u64) {
   let mut rng = ctx.rng.clone();
-  let g = gen_schema(&mut rng, Profile::shared());
+  // every fifth case takes the next schema of the hand-written interaction corpus
+  let trees = crate::corpus::trees_for(false);
+  let g = if _idx % 5 == 4 && !trees.is_empty() {
+    ctx.count("schemas_from_corpus");
+    trees[(_idx / 5) as usize % trees.len()].clone()
+  } else {
+    gen_schema(&mut rng, Profile::shared())
+  };
   let st = vcore::schema_text(&g);
   let tags = gs::tags(&g);
   let docs = gen_docs(&g, &mut rng, true, 10);
